@@ -85,6 +85,10 @@ if __name__ == '__main__':
         SRC = '/tmp/seeded-out2'
         labels = ('C', 'D')
         args = args[1:]
+    if args and args[0] == '--round3':
+        SRC = '/tmp/seeded-out3'
+        labels = ('E', 'F')
+        args = args[1:]
     ids = args or [f'C{i:02d}' for i in range(1, 21)]
     jobs = [(p, l) for p in ids for l in labels if os.path.exists(os.path.join(SRC, p, f'{l}.diff'))]
     with ThreadPoolExecutor(6) as ex:
